@@ -93,6 +93,12 @@ CLAIMS = {
         text='On every path through cli_main no failing exit is reachable after a file has been opened for writing and assemble() precedes every write (no-clobber); the -o handle is binary and receives exactly the value returned by assemble once; '
              'the -l lines come from items() of the very dict passed as labels=; bin2hex runs after the binary is closed with int(hex_offset, 0); AssemblerError becomes a failing SystemExit and no handler swallows an error; -c/-i wiring.',
         note='Not decided: OS-level write failures between the files; correctness of intelhex.bin2hex. Trusted: CPython ast, bbverif pathwalk.'),
+    'C15': dict(
+        category='other', design='DESIGN.md §4 C15',
+        technique='exception-escape analysis over a repository-specific call graph (table-of-partials, closures, methods by name); Line-kind dataflow for AssemblerError arguments and item constructions',
+        text='Every explicit raise of a non-assembler exception and every struct/int() call fed with user data reachable from assemble() is followed along all call chains; each chain must cross a handler that converts it into AssemblerError(message, Line). '
+             'Internal-invariant raises are discharged by class-flow / dispatch exhaustiveness; a lookup dominated by the matched rule\'s own predicates is discharged through the lifted relation. Every AssemblerError carries a Line; every item the parser or a pass builds carries the line of its source; Lines are created per physical line with the reading file\'s path and a 1-based number.',
+        note='Not decided: exceptions Python raises implicitly on malformed arity/syntax (listed as escape candidates); duplicate labels are never refused. Trusted: CPython ast, resolution rules of bbverif/callgraph.py.'),
 }
 
 NOT_YET = 'check not built yet (framework under construction)'
